@@ -29,6 +29,8 @@ class InjectedTransferError(OSError):
 
 
 def content(uid, name):
+    if name == "zz_extra.txt":
+        return b""  # a zero-length file (an empty credits / notes file) is a file like any other
     return ("%s/%s:" % (uid, name)).encode() * 7 + b"END"
 
 
